@@ -25,4 +25,42 @@ for dp, dn, fn in os.walk(os.path.join(REPO, "cloudsync")):
                         names.append("%s.%s" % (c.name, m.name))
         inv[".".join(parts)] = sorted(set(names))
 json.dump(inv, open(os.path.join(HERE, "sa", "inventory.json"), "w"), indent=0, sort_keys=True)
+def shape_of(v):
+    names = {}
+
+    class G(ast.NodeTransformer):
+        def visit_Name(self, n):
+            if n.id == "self":
+                return n
+            names.setdefault(n.id, "v%d" % len(names))
+            return ast.copy_location(ast.Name(id=names[n.id], ctx=n.ctx), n)
+    import copy
+    return ast.unparse(G().visit(copy.deepcopy(v)))
+
+
+# the alias shapes of every method (sa/canon.py inlines hoisted aliases that are NOT in this list)
+loc = {}
+for dp, dn, fn in os.walk(os.path.join(REPO, "cloudsync")):
+    if os.path.relpath(dp, REPO).split(os.sep)[:2] == ["cloudsync", "tests"]:
+        dn[:] = []
+        continue
+    for f in sorted(fn):
+        if not f.endswith(".py"):
+            continue
+        rel = os.path.relpath(os.path.join(dp, f), REPO)
+        tree = ast.parse(open(os.path.join(dp, f)).read())
+        loc["%s:<module>" % rel] = sorted({t.id for st in tree.body if isinstance(st, (ast.Assign, ast.AnnAssign)) for t in (st.targets if isinstance(st, ast.Assign) else [st.target])
+                                           if isinstance(t, ast.Name)})
+        for c in ast.walk(tree):
+            if isinstance(c, ast.ClassDef):
+                for m in c.body:
+                    if isinstance(m, (ast.FunctionDef, ast.AsyncFunctionDef)):
+                        # the shapes of the call-free attribute / subscript chains this method already keeps in locals (names do not matter)
+                        shapes = set()
+                        for st in ast.walk(m):
+                            if isinstance(st, ast.Assign) and len(st.targets) == 1 and isinstance(st.targets[0], ast.Name) and not isinstance(st.value, (ast.Name, ast.Constant)) \
+                                    and all(isinstance(x, (ast.Attribute, ast.Subscript, ast.Name, ast.Load, ast.Constant)) for x in ast.walk(st.value)):
+                                shapes.add(shape_of(st.value))
+                        loc["%s:%s.%s" % (rel, c.name, m.name)] = sorted(shapes)
+json.dump(loc, open(os.path.join(HERE, "sa", "locals_inventory.json"), "w"), indent=0, sort_keys=True)
 print(sum(len(v) for v in inv.values()), "methods in", len(inv), "modules")
